@@ -211,13 +211,13 @@ type c07Segment struct {
 }
 
 type c07Recorder struct {
-	mu             sync.Mutex
-	dir            string
-	odsRel, q4Rel  string
-	points         int
-	names          map[string]int
-	segs           []*c07Segment
-	err            error
+	mu            sync.Mutex
+	dir           string
+	odsRel, q4Rel string
+	points        int
+	names         map[string]int
+	segs          []*c07Segment
+	err           error
 }
 
 func c07NewRecorder(dir, odsRel, q4Rel string) (*c07Recorder, error) {
@@ -500,6 +500,13 @@ func (c *c07Case) judge(cr c07Crash, depth int) []c07Crash {
 	}
 	c.seen[key] = true
 	cls, nontrivial := c.classify(cr.state)
+	// known finding (fallback when the defect is listed as open instead of repaired): an incomplete
+	// Q4 file is served once the ODS is linked. Exactly the states holding an incomplete Q4 file
+	// are left out then; the fixed witness proves that the defect is still there.
+	if q := cr.state[c.q4Rel]; vk.KnownOpen(c07SigPartialQ4) && q.kind == 'f' && len(q.data) < c.fullQ4 {
+		vk.Excluded(c07SigPartialQ4)
+		return nil
+	}
 	vk.Count("dir_states_distinct", 1)
 	if cr.product {
 		vk.Count("product_states", 1)
